@@ -60,6 +60,11 @@ func Reset() {
 func next(kind string) uint64 {
 	load()
 	if tapePos >= len(tape) {
+		// A counterexample tape ends at the failing assertion; inputs drawn after it cannot
+		// undo the recorded failure, so they default to zero (ranged ones to their low end).
+		if len(Failures) > 0 {
+			return 0
+		}
 		panic(fmt.Sprintf("zzverif: tape exhausted at %d (want %s)", tapePos, kind))
 	}
 	e := tape[tapePos]
@@ -102,10 +107,22 @@ func NondetF32() float32 { return math.Float32frombits(uint32(next("f32"))) }
 
 // NondetIntRange returns an arbitrary integer in [lo,hi]; the engine tracks it as a ranged
 // mathematical integer (exact, with explicit wrap-around where a result leaves its type).
-func NondetIntRange(lo, hi int64) int64   { return int64(next("irange")) }
-func NondetI32Range(lo, hi int32) int32   { return int32(next("irange")) }
-func NondetU32Range(lo, hi uint32) uint32 { return uint32(next("irange")) }
-func NondetU64Range(lo, hi uint64) uint64 { return next("irange") }
+func NondetIntRange(lo, hi int64) int64 {
+	if x := int64(next("irange")); x >= lo && x <= hi {
+		return x
+	}
+	return lo
+}
+func NondetI32Range(lo, hi int32) int32 { return int32(NondetIntRange(int64(lo), int64(hi))) }
+func NondetU32Range(lo, hi uint32) uint32 {
+	return uint32(NondetIntRange(int64(lo), int64(hi)))
+}
+func NondetU64Range(lo, hi uint64) uint64 {
+	if x := next("irange"); x >= lo && x <= hi {
+		return x
+	}
+	return lo
+}
 
 // NondetFloatInt returns a float64 holding an arbitrary integer in [lo,hi] (|.| <= 2^53).
 func NondetFloatInt(lo, hi int64) float64 { return float64(int64(next("fint"))) }
